@@ -6,19 +6,12 @@ import json, subprocess, sys, os, re
 ROOT = os.path.dirname(os.path.dirname(os.path.abspath(__file__)))
 RULES = [
     (r"^K/BasicBinaryExp/", "KF-C14-BinaryExp-always-string-kinded"),
-    (r"^V/BasicFunctionCall/", "KF-C05-FunctionCall-arguments-not-traversed"),
-    (r"^V/BasicFunctionalExpression/named", "KF-C05-named-functional-arguments-not-traversed"),
-    (r"^V/BasicJoystkExpression/named", "KF-C05-named-functional-arguments-not-traversed"),
-    (r"^V/BasicAssignment/.*functional rhs", "KF-C05-named-functional-arguments-not-traversed"),
     (r"^V/BasicVarptrExpression/", "KF-C05-VARPTR-operand-not-traversed"),
     (r"^T/BasicIfElse/pre=0,elif=[12],else=0", "KF-C02-ELSEIF-chain-without-ELSE-never-exits"),
     (r"^T/BasicIfElse/pre=2", "KF-C05-IfElse-drops-hoisted-calls"),
-    (r"^[TV]/BasicWidthStatement/", "KF-C05-WIDTH-operand-not-traversed"),
     (r"^[TV]/BasicReadStatement/", "KF-C05-READ-targets-not-traversed"),
     (r"^V/BasicInputStatement/", "KF-C05-INPUT-operands-not-traversed"),
     (r"^if-forms/elif=[123],else=0", "KF-C02-ELSEIF-chain-without-ELSE-never-exits"),
-    (r"^regroup/(-A(AND|OR)B|NOTA(AND|OR)B)$", "KF-C01-prefix-operator-captures-AND-OR"),
-    (r"^regroup/-A\^B$", "KF-C01-unary-minus-before-power"),
     (r"^function/joystk_to_statement/", "KF-C04-JOYSTK-call-passes-2-of-6-arguments"),
     (r"^layout/CLEAR200$", "KF-C08-CLEAR-comment-keeps-source-layout"),
     (r"^layout/A1=&HFF$", "KF-C08-blank-inside-hex-literal"),
@@ -26,8 +19,6 @@ RULES = [
     (r"^layout/A1=1\.5E\+3$", "KF-C08-blank-inside-decimal-literal"),
     (r"^rule-kind/exp/A1\*2$", "KF-C14-BinaryExp-always-string-kinded"),
     (r"^declared/(argument of|READ target|INPUT target|LINE INPUT target|subscript of a READ target)", "KF-C10-names-in-untraversed-positions-undeclared"),
-    (r"^declared/(implicit string array|ELSE arm after ELSE IF)", "KF-C10-implicit-string-array-unsized"),
-    (r"^user-text/comment with an odd quote", "KF-C13-odd-quote-in-comment-defeats-placeholder-substitution"),
     (r"^user-text/comment that mentions a call", "KF-C13-RUN-in-comment-counts-as-a-call"),
     (r"^(helpers/)?string/counts -2\.\.255, declared capacity 32$", "KF-C20-STRING$-result-cut-to-declared-capacity"),
     (r"^kinds/ecb_joystk/", "KF-C04-JOYSTK-call-passes-2-of-6-arguments"),
